@@ -43,6 +43,9 @@ class struct(_composite_base):
     def __str__(self):
         def to_str():
             for field in self._descriptor:
+                if codec_kind.is_array_sizer(field.type):
+                    """ counters are not attributes: a name like 'decode' would find the method """
+                    continue
                 value = getattr(self, field.name, None)
                 if value is not None:
                     yield field_to_string(field.name, field.type, value)
